@@ -51,6 +51,26 @@ mod verif_bounded_mdk {
         }
         d.join(" | ")
     }
+    /// C08 mirror: the stored record (epoch, name, description, admins, Nostr group id, image hash) and relay set against the group-data
+    /// extension and epoch of the client's own MLS state; None while the client is not (or no longer) an active member
+    fn mirror_diff<S: MdkStorageProvider>(m: &MDK<S>, gid: &GroupId) -> Option<String> {
+        let g = m.get_group(gid).ok().flatten()?;
+        if format!("{:?}", g.state) != "Active" { return None; }
+        let mls = m.load_mls_group(gid).ok().flatten()?;
+        if !mls.is_active() { return None; }
+        let ext = crate::extension::NostrGroupDataExtension::from_group(&mls).ok()?;
+        let mut d = vec![];
+        if g.epoch != mls.epoch().as_u64() { d.push(format!("epoch: record {} / MLS {}", g.epoch, mls.epoch().as_u64())); }
+        if g.name != ext.name { d.push(format!("name: record {:?} / MLS {:?}", g.name, ext.name)); }
+        if g.description != ext.description { d.push("description".to_string()); }
+        if g.admin_pubkeys != ext.admins { d.push(format!("admins: record {} / MLS {}", g.admin_pubkeys.len(), ext.admins.len())); }
+        if g.nostr_group_id != ext.nostr_group_id { d.push("nostr group id".to_string()); }
+        if g.image_hash != ext.image_hash { d.push("image hash".to_string()); }
+        let relays: BTreeSet<String> = m.get_relays(gid).ok()?.into_iter().map(|r| r.to_string()).collect();
+        let want: BTreeSet<String> = ext.relays.iter().map(|r| r.to_string()).collect();
+        if relays != want { d.push(format!("relays: stored {relays:?} / MLS {want:?}")); }
+        if d.is_empty() { None } else { Some(d.join("; ")) }
+    }
     struct World { a: MDK<mdk_memory_storage::MdkMemoryStorage>, b: MDK<mdk_memory_storage::MdkMemoryStorage>, ak: Keys, bk: Keys,
                    mem: MDK<mdk_memory_storage::MdkMemoryStorage>, sql: MDK<MdkSqliteStorage>, gid: GroupId, log: Vec<String> }
     fn setup() -> World {
@@ -76,6 +96,10 @@ mod verif_bounded_mdk {
             let (fm, fs) = (fp(&self.mem, &self.gid), fp(&self.sql, &self.gid));
             // the two bystanders are different members: their own identity is in both member sets, so the fingerprints are comparable as they are
             if !diff(&fm, &fs).is_empty() { panic!("BOUNDED-COUNTEREXAMPLE {label}: scenario [history: {}] the two bystanders differ afterwards: {}", self.log.join(" ; "), diff(&fm, &fs)); }
+            // C08, stated directly: on each bystander the stored record and relay set are what its MLS state says (checked while the
+            // client is a member: an evicted client's MLS group no longer carries the current data)
+            if let Some(d) = mirror_diff(&self.mem, &self.gid) { panic!("BOUNDED-COUNTEREXAMPLE {label}: scenario [history: {}] the stored record of the memory-backed client does not mirror its MLS state: {d}", self.log.join(" ; ")); }
+            if let Some(d) = mirror_diff(&self.sql, &self.gid) { panic!("BOUNDED-COUNTEREXAMPLE {label}: scenario [history: {}] the stored record of the SQLite-backed client does not mirror its MLS state: {d}", self.log.join(" ; ")); }
             for (who, f) in [("memory-backed", &fm), ("SQLite-backed", &fs)] {
                 if f.last_message_heads_own_listing == Some(false) { panic!("BOUNDED-COUNTEREXAMPLE {label}: scenario [history: {}] the last-message pointer of the {who} client is not the first not-invalidated message of its default listing: {}", self.log.join(" ; "), f.detail); }
             }
@@ -540,6 +564,39 @@ mod verif_bounded_mdk {
         }
         run(label, "memory-backed", &create_test_mdk());
         run(label, "SQLite-backed", &MDK::new(MdkSqliteStorage::new_unencrypted(":memory:").unwrap()));
+    }
+    // C01 / C09 / C10: a commit race resolved by rollback WHILE A PROPOSAL IS PENDING at the bystanders (the pre-commit snapshot holds a
+    // non-empty MLS proposal queue, which the rollback must bring back usable): a member's leave proposal is stored pending at both
+    // bystanders, both admins auto-commit it concurrently, the bystanders get the loser first, then the winner; afterwards both follow
+    // the winner and read its next message. Scope: one history, memory-backed and SQLite-backed bystander compared after every event.
+    #[test]
+    fn race_with_a_pending_proposal_history() {
+        use crate::messages::MessageProcessingResult;
+        let label = "mdk_backends_bounded.race_with_a_pending_proposal_history";
+        let mut w = setup();
+        let dk = Keys::generate(); let d = create_test_mdk();
+        let add = w.a.add_members(&w.gid, &[create_key_package_event(&d, &dk)]).unwrap();
+        w.a.merge_pending_commit(&w.gid).unwrap(); w.b.process_message(&add.evolution_event).unwrap();
+        w.deliver(label, "alice adds dave", &add.evolution_event);
+        let wl = d.process_welcome(&nostr::EventId::all_zeros(), &add.welcome_rumors.as_ref().unwrap()[0]).unwrap(); d.accept_welcome(&wl).unwrap();
+        let leave = d.leave_group(&w.gid).unwrap().evolution_event;
+        w.deliver(label, "dave's leave proposal (stored pending at the bystanders)", &leave);
+        let commit_of = |r: crate::messages::Result<MessageProcessingResult>| -> Event { match r { Ok(MessageProcessingResult::Proposal(u)) => u.evolution_event, other => panic!("harness: an admin did not auto-commit the leave (not a counterexample): {other:?}") } };
+        let ca = commit_of(w.a.process_message(&leave));
+        std::thread::sleep(std::time::Duration::from_millis(1100));
+        let cb = commit_of(w.b.process_message(&leave));
+        w.deliver(label, "bob's auto-commit of the leave (the LOSER: one second younger)", &cb);
+        w.deliver(label, "alice's auto-commit of the leave (the winner) -> rollback with a pending proposal in the snapshot", &ca);
+        w.a.merge_pending_commit(&w.gid).unwrap();
+        let want = w.a.get_group(&w.gid).unwrap().unwrap().epoch;
+        for (who, f) in [("memory-backed", fp(&w.mem, &w.gid)), ("SQLite-backed", fp(&w.sql, &w.gid))] {
+            if f.epoch != Some(want) { panic!("BOUNDED-COUNTEREXAMPLE {label}: scenario [history: {}] the {who} bystander is at epoch {:?}, the winner at {want}", w.log.join(" ; "), f.epoch); }
+        }
+        let m = w.a.create_message(&w.gid, create_test_rumor(&w.ak, "on the winning branch")).unwrap();
+        let (rm, rs) = (w.mem.process_message(&m), w.sql.process_message(&m));
+        for (who, r) in [("memory-backed", &rm), ("SQLite-backed", &rs)] {
+            if !matches!(r, Ok(MessageProcessingResult::ApplicationMessage(_))) { panic!("BOUNDED-COUNTEREXAMPLE {label}: scenario [history: {} ; alice sends a message] the {who} bystander cannot read the winner's next message: {:?}", w.log.join(" ; "), r.as_ref().map(|x| format!("{:?}", std::mem::discriminant(x))).map_err(|e| format!("{e:?}").chars().take(80).collect::<String>())); }
+        }
     }
     // C05: a commit that a NON-admin member builds directly with the MLS library (bypassing the client-side admin gate) and that does
     // more than refresh its author's own key -- a group-data rewrite making the author an admin, a removal, an add -- is refused by
